@@ -272,4 +272,22 @@ def valid(s):
             if l["a"] in seen or l["b"] in seen:
                 return False
             seen.update((l["a"], l["b"]))
+    # an inflow point (negative demand) needs a way out when every tank is full: a route to a reservoir over links that
+    # let water flow away from it (pipes and TCVs both ways; check valves, pumps, PRV/PSV/FCV only forwards; closed or
+    # toggled links not at all) - otherwise the model is ill-posed the moment the tank links shut
+    for n in s["nodes"]:
+        if n["t"] == "junc" and any(b < 0 for b, _, _ in n["demands"]):
+            toggled = set(c["link"] for c in s["controls"])
+            seen, todo = {n["n"]}, [n["n"]]
+            while todo:
+                u = todo.pop()
+                for l in s["links"]:
+                    if l["status"] == "CLOSED" or l["n"] in toggled:
+                        continue
+                    oneway = (l["t"] == "pipe" and l.get("cv")) or l["t"] in ("hpump", "ppump", "PRV", "PSV", "FCV")
+                    for x, y in ((l["a"], l["b"]),) + (() if oneway else ((l["b"], l["a"]),)):
+                        if x == u and y not in seen and typ[y] != "tank":
+                            seen.add(y); todo.append(y)
+            if not any(typ[x] == "res" for x in seen):
+                return False
     return True
